@@ -454,7 +454,7 @@ struct StreamEngine : Engine
         if (prop == "C18") v.push_back("in the corruption configuration equality with the sent sequence is not demanded: only no access beyond the stated length, result <= available and <= 6, and continuation bytes in accepted sequences");
         return v;
     }
-    uint64_t default_runs(std::string const &prop, int tier) const override { (void)prop; return tier ? 2000000 : 40000; }
+    uint64_t default_runs(std::string const &prop, int tier) const override { return prop == "C17" ? (tier ? 30000000 : 400000) : (tier ? 40000000 : 500000); }
 };
 
 Engine *make_engine() { return new StreamEngine(); }
